@@ -407,6 +407,10 @@ def make_reg():
             T_state = it.reg.cluster_engine._objs["T"].fields["__state"].z
             it.ctx.prove(z3.Implies(normal, T_state == tm.index("S_stopped")), "post:C08:closed-only-when-terminator-stopped",
                          {"kind": "post", "src": "closed() with a normal verdict only after the Terminator reached S_stopped"})
+            it.ctx.prove(z3.Implies(normal, z3.And(t("service_stopped"), z3.Not(t("connected")))),
+                         "post:C08:server-connection-dropped-before-closed",
+                         {"kind": "post", "src": "by closed(): the ClientService has reported that it stopped (no connection is up, "
+                                                 "none can still open)"})
             it.ctx.prove(z3.Implies(normal, z3.And(z3.Not(t("claimed_maybe")), z3.Not(t("opened_maybe")), t("rc_stop_called"))),
                          "post:C08:resources-freed-before-closed",
                          {"kind": "post", "src": "by closed(): nameplate released or never claimed, mailbox closed or never "
@@ -598,7 +602,10 @@ def e_close(eng, it, objs):
 
 
 def e_ws_open(eng, it, objs):
-    for f in ("connected", "service_stopped", "rc_stop_called", "init_fail_done"):
+    # A connection can still open after RC.stop() as long as the ClientService has not reported that it stopped: the TCP
+    # link of a (re)connection attempt may be up with the WebSocket negotiation unfinished (RC._ws is still None), and
+    # autobahn completes the negotiation with bytes that were already on their way (seen with the real ClientService).
+    for f in ("connected", "service_stopped", "init_fail_done"):
         it.ctx.assume(z3.Not(T_(it, objs, f)))
     for f in PER_CONNECTION:
         it.ctx.assume(z3.Not(T_(it, objs, f)))
